@@ -9,6 +9,7 @@ package refbench
 import (
 	"math"
 	"math/big"
+	"regexp"
 	"strconv"
 	"strings"
 	"unicode"
@@ -409,6 +410,9 @@ func benchLine(rest string) (*Result, bool) {
 		if err != nil {
 			return nil, false
 		}
+		if bf, ok := longDecimal(fs[i]); ok {
+			f = bf // (strconv decided validity; see longDecimal for the value)
+		}
 		res.Values = append(res.Values, MakeValue(f, fs[i+1]))
 	}
 	return res, true
@@ -451,3 +455,35 @@ func FileLabels(paths []string, allowLabels bool) (labels, real []string) {
 
 // ValidUTF8 is re-exported for generators.
 func ValidUTF8(s string) bool { return utf8.ValidString(s) }
+
+var longDecRe = regexp.MustCompile(`^[+-]?([0-9]*)\.?([0-9]*)(?:[eE]([+-]?[0-9]{1,5}))?$`)
+
+// longDecimal returns the correctly rounded value of a plain decimal text with more than 700
+// digits, computed with big.Rat: strconv.ParseFloat itself drops integer digits beyond the
+// 800th without moving the decimal point (the defect repaired in /repo as C03-a), so it cannot
+// be the reference for such texts. ok is false for shorter or other texts and for values that
+// overflow (strconv's answer stands there).
+func longDecimal(txt string) (val float64, ok bool) {
+	txt = strings.ReplaceAll(txt, "_", "")
+	m := longDecRe.FindStringSubmatch(txt)
+	if m == nil || len(m[1])+len(m[2]) <= 700 {
+		return 0, false
+	}
+	if m[3] != "" {
+		if e, err := strconv.Atoi(m[3]); err != nil || e > 3000 || e < -3000 {
+			return 0, false
+		}
+	}
+	r, good := new(big.Rat).SetString(txt)
+	if !good {
+		return 0, false
+	}
+	f, _ := r.Float64()
+	if math.IsInf(f, 0) {
+		return 0, false
+	}
+	if f == 0 && strings.HasPrefix(txt, "-") {
+		f = math.Copysign(0, -1)
+	}
+	return f, true
+}
